@@ -74,6 +74,9 @@ func c17Mutate(fs []peer.Frame, m string) []byte {
 	var i, a int
 	fmt.Sscanf(m, "%s %d %d", &kind, &i, &a)
 	out := append([]peer.Frame{}, fs...)
+	if i >= len(out) { // a second mutation whose frame an earlier deletion removed: nothing left to change
+		return serialize(out)
+	}
 	switch kind {
 	case "delete":
 		out = append(out[:i], out[i+1:]...)
